@@ -141,6 +141,14 @@ class ImplStack:
         self.instances = [self.loop.call(SD.ServiceInstance, svc, self.srv[i], self.p.announcer, impl_tm)
                           for i, svc in enumerate(services)]
         self.nexc = 0
+        # ghost observation of queue requests (C15/C10/C12): wrap the bound method on this one object
+        orig_queue = self.p.announcer.queue_send
+
+        def queue_send(entry, remote=None):
+            self.out(f"queued {idx_of(remote)} {sdio.entry_tok(entry)}")
+            return orig_queue(entry, remote=remote)
+
+        self.p.announcer.queue_send = queue_send
 
     def close(self):
         _random.uniform = self._saved_uniform
@@ -196,9 +204,11 @@ class ImplStack:
             if not pl:
                 break
             for h in pl:
-                try:
-                    self.loop._ready.remove(h)
-                except ValueError:
+                for i, x in enumerate(self.loop._ready):
+                    if x is h:
+                        del self.loop._ready[i]
+                        break
+                else:
                     continue
                 self.loop._enter()
                 try:
@@ -238,7 +248,10 @@ class ImplStack:
             if not hs:
                 return "disabled"
             h = hs[0]
-            self.loop._ready.remove(h)
+            for i, x in enumerate(self.loop._ready):
+                if x is h:
+                    del self.loop._ready[i]
+                    break
             self.loop._enter()
             try:
                 h._run()
